@@ -27,8 +27,8 @@ TABLE = {
     ),
     "C02": (
         "property-based differential testing against an independent mpmath evaluation of the documented equation",
-        "Every registered element class x generated in-limit parameter vectors x frequencies, whole circuits and all 36 Tlm sub-circuit configurations: numeric impedance vs our own 40-digit mpmath evaluation of the class's documented equation string and of to_sympy(); reported 0 Hz / inf limits vs mpmath evaluation at f=1e-/+2000.",
-        "Trusts sympy's parser for the equation strings and mpmath's elementary functions; tolerance rel 1e-9.",
+        "Every registered element class x generated in-limit parameter vectors x frequencies, whole circuits and all 36 Tlm sub-circuit configurations: numeric impedance vs our own 40-digit mpmath evaluation of the class's documented equation string and of to_sympy(); reported 0 Hz / inf limits vs mpmath evaluation at f=1e-/+20000 (only where the reference itself has converged).",
+        "Trusts sympy's parser for the equation strings and mpmath's elementary functions; tolerance rel 1e-9 plus a backward-error allowance (64 ulp of every input). For Tlm sub-circuit configurations the numeric and the symbolic path are compared with each other only.",
     ),
     "C03": (
         "round-trip and generator-as-oracle property-based testing with a grammar-directed CDC printer",
@@ -48,7 +48,7 @@ TABLE = {
     "C06": (
         "round-trip property-based testing over generated file conventions (pairwise-complete cross product) and instrument-layout writers",
         "Generated spectra are written by our own emitters in every documented delimited-table convention and in the six simple instrument layouts, parsed with parse_data and compared with the generating numbers (documented sign of Im, one DataSet per sweep); the CLI 'parse' csv output is fed back as such a file.",
-        "Instrument-layout writers are modelled on the repository's sample files; binary/spreadsheet formats are out of the property's text.",
+        "Instrument-layout writers are modelled on the repository's sample files; binary/spreadsheet formats are out of the property's text; layouts read through pandas compared at rel 1e-12, through float() at 1e-15; extension-less files only for comma tables.",
     ),
     "C07": (
         "property-based testing against an analytic reference model (own implementation of the KK model and time constants)",
@@ -63,27 +63,27 @@ TABLE = {
     "C09": (
         "metamorphic property-based testing (impedance scaling, frequency scaling, order reversal)",
         "Generated noisy spectra x test kinds x representations x options are run on the original and on rescaled/reversed data; residuals and chi-squared must agree and fitted quantities rescale.",
-        "Fixed num_RC, no extension optimisation; tolerances from calibration on the unchanged tree.",
+        "Fixed num_RC, no extension optimisation; tolerances (abs 1e-5 + rel 1e-4 of max |residual|) from calibration on the repaired tree.",
     ),
     "C10": (
         "property-based statistical testing against frozen calibrated bands",
         "Bundled mock circuits and random ladders x noise levels x drawn RNG seeds through the default automatic test: estimated noise within a frozen band of the injected noise, suggested num_RC inside reported limits, drift-corrupted twin has a much larger chi-squared.",
-        "Bands calibrated once on the unchanged tree with a wide safety factor; detects gross mis-calibration only.",
+        "Bands ([0.3, 5] noise ratio, drift chi-squared ratio >= 3 at sigma <= 0.03 %) calibrated once on the unchanged tree with a wide safety factor and frozen; detects gross mis-calibration only.",
     ),
     "C11": (
         "property-based testing with analytic oracles (constant-phase spectra) and metamorphic relations (scaling, zero-weight points)",
         "Constant-phase spectra and ladders x smoothing x interpolation x representation x windows: reconstructed modulus vs true modulus, scaling equivariance, zero-weight insensitivity, smoothers preserve constant and linear phase.",
-        "Tolerances calibrated on the repaired tree; ladder clause is a few-percent band.",
+        "Tolerances calibrated on the repaired tree (constant phase 5e-4; ladders 8 %/20 %); three smoother/option combinations that alter linear phase are listed as known findings F17, F18, F33.",
     ),
     "C12": (
         "property-based testing: recovery against generating truth + invariants over the method x weight grid",
         "Generated identifiable circuits, perturbed starts, fixed subsets, limit boxes, constraints: bounds/fixed/constraints/table/untouched-input invariants on every fit; recovery of the truth with the default auto choice.",
-        "Recovery asserted on calibrated well-separated families; FittingError is an accepted outcome for exotic method/weight pairs.",
+        "Recovery asserted per case on single-arc families and by a frozen rate (>= 0.85) on two-arc families; FittingError is an accepted outcome for exotic method/weight pairs.",
     ),
     "C13": (
         "property-based testing with analytic oracles (area, peak positions, exact Loewner recovery) and metamorphic scaling",
         "Generated RC/RQ ladders x methods: non-negativity, area = polarisation resistance, peaks at tau_k, exact (tau_k,R_k) recovery by the Loewner method, per-element m(RQ)fit areas, scaling laws.",
-        "Bands calibrated on the unchanged tree.",
+        "Bands calibrated on the unchanged tree (area [0.90, 1.03]; peaks for (RC) elements); the m(RQ)fit oracle is point-wise against our own Cole-Cole/Gaussian curves.",
     ),
     "C14": (
         "stateful model-based property testing (generated call histories vs a dictionary model) on every element class",
@@ -108,7 +108,7 @@ TABLE = {
     "C18": (
         "exhaustive/pairwise option-grid enumeration with an exception-taxonomy oracle and a progress-callback monitor",
         "The option cross products of every analysis entry point on several spectrum sizes: each combination must return a result or be refused by an explicit raise of TypeError/ValueError/library error; progress notifications in [0,1] with a str message.",
-        "Refusal = innermost frame is a raise statement in pyimpspec outside progress.py.",
+        "Refusal = innermost frame is a raise statement in pyimpspec outside progress.py; a TypeError after progress was reported is a violation; known findings F34 (automatic KK on 4-5 points) and F35 (log_F_ext outside the search range).",
     ),
     "C19": (
         "differential property-based testing: CLI output parsed back vs API results",
